@@ -82,6 +82,30 @@ def scalar_binop(op, a, b):
         # general power: opaque (A-MATH): only congruence is used
         pw = z3.Function("pow!uf", z3.RealSort(), z3.RealSort(), z3.RealSort())
         return pw(to_real(a), to_real(b))
+    if op in ("RShift", "LShift") and both_int:
+        # x >> k == floor(x / 2^k), x << k == x * 2^k (Python / two's complement arithmetic shift); symbolic k in 0..63 by case split
+        A.oblige("shift.non_negative", b >= 0, "negative shift count")
+
+        def sh(k):
+            return py_floordiv(a, z3.IntVal(2 ** k)) if op == "RShift" else a * z3.IntVal(2 ** k)
+        bs = z3.simplify(b)
+        if z3.is_int_value(bs):
+            return sh(bs.as_long())
+        r = sh(63)
+        for k in range(62, -1, -1):
+            r = z3.If(b == k, sh(k), r)
+        return r
+    if op in ("BitAnd", "BitOr", "BitXor") and both_int:
+        for p, q in ((a, b), (b, a)):
+            qs = z3.simplify(q)
+            if op == "BitAnd" and z3.is_int_value(qs):
+                m = qs.as_long()
+                if m >= 0 and (m + 1) & m == 0:            # mask 2^k - 1: the low k bits = x mod 2^k (also for negative x, infinite two's complement)
+                    return py_mod(p, z3.IntVal(m + 1))
+                if m > 0 and m & (m - 1) == 0:             # a single bit
+                    return py_mod(py_floordiv(p, z3.IntVal(m)), z3.IntVal(2)) * z3.IntVal(m)
+        # general case: bit-blast 64 bits of the two's complement patterns is too heavy for the arithmetic solver
+        raise Unsupported(f"bitwise {op} of two symbolic integers")
     raise Unsupported(f"scalar operator {op}")
 
 
